@@ -42,6 +42,30 @@ M = {
  "C35": ("icreward Delegating.ApplyVotes: existing entry updated in place (Clone is shallow, so the base snapshot's cached object changes)",
          "IISS4 reward path; a voter with a delegation from an earlier term changes the amount to the same P-Rep inside the term",
          "FIRST MISSED; re-delegations of a changed non-zero amount to the same P-Rep in later terms added, then caught"),
+ "C03": ("consensus/wal.go walReader.ReadBytes: payload lengths above configWALFileLimit (2 MiB, the rotation threshold) are reported as corrupted",
+         "one synced record with a payload of 2 MiB + 1 bytes or more, then a reopen and read (the recover loop truncates the log at that record)",
+         "FIRST MISSED (largest payload was 8192 bytes); histories with one record of 2 MiB-1 .. 3 MiB added, then caught"),
+ "C05": ("service/state/validatorlist.go clone(): the copy-on-write clone shares the address index map with the snapshot it was made from",
+         "a validator state derived from the live snapshot V replaces/sets a validator (term change, penalty), then a commit vote list is verified against V",
+         "FIRST MISSED (validator lists were only built from slices); verifications after mutating states derived from the verified snapshot added, then caught"),
+ "C07": ("block/blockv2.go VerifyTimestamp: the height guard of the monotonicity rule lands on the parent (prev.Height() > 1)",
+         "a height-2 candidate whose vote-median timestamp is not after block 1's timestamp",
+         "caught by the checks as they stood"),
+ "C11": ("txlocator manager.addListAndClearOldInLock: the `ptr.ts != 0` guard on maxTSInDB dropped (the root list of a restarted manager sets a tiny watermark)",
+         "restart, one more committed block and its flush, then a replay of a transaction finalized before the restart",
+         "caught by the checks as they stood (crash/restart phase of round 2)"),
+ "C13": ("transaction_v3.go Verify: process-wide cache of verified ids skips the signature check for a known id",
+         "the genuine transaction verified first, then a copy with the same fields and another signature",
+         "caught by the checks as they stood"),
+ "C18": ("ompt branch.prove: the proof element of a branch that is already written/flushed is consumed without comparison",
+         "one verifier reused: Prove(valid), Flush, Prove(altered); or a database-backed verifier whose upper nodes were realized by Get",
+         "FIRST MISSED (a fresh verifier per proof, never flushed); verifier life cycles (reuse across proofs with Flush, database-backed verifiers after Get) added, then caught"),
+ "C21": ("containerdb/arraydb.go: the array size is cached in the handle instead of being re-read from the store",
+         "two live handles on one array path used alternately, or a store rollback while a handle stays alive",
+         "FIRST MISSED (one handle per container, no rollback under a live handle); multi-handle and rollback histories added, then caught"),
+ "C31": ("network/secure.go increaseNonce: carry lost, the nonce repeats every 256 frames",
+         "more than 256 frames in one direction and a swap/replay at a distance that is a multiple of 256",
+         "caught by the checks as they stood (long-stream case of round 2; distance 256 also reported)"),
 }
 
 for pid, (change, needs, result) in M.items():
